@@ -1,6 +1,7 @@
 import FpVerif.Sexp
 import FpVerif.Model.Future
 import FpVerif.Model.FutureChain
+import FpVerif.Model.FutureMisc
 /-! Oracle for fp.Future / package future (C06, and the arity-indexed builder families of C14): replays a scenario
     script on the network model. -/
 open FpVerif FpVerif.Sexp FpVerif.Fut
@@ -391,6 +392,15 @@ def defFam (w : World) : Sexp → Option FExpr
     let xs ← xs.mapM Sexp.asInt?
     -- TraverseSlice = Map(traverse(…), Widen); the harness maps once more to `any`
     pure (Fut.map (Fut.map (Fut.traverseSeq (xs.map Val.int) (← kfOf w k)) (fun l => (l, []))) (fun l => (l, [])))
+  -- ARITY2: Model/FutureMisc.lean
+  | .list (.atom "traverseFunc" :: k :: xs) => do
+    let xs ← xs.mapM Sexp.asInt?
+    -- the harness maps the iterator once more to a slice
+    pure (Fut.map (traverseFunc (← kfOf w k) (xs.map Val.int)) (fun l => (l, [])))
+  | .list [.atom "monoidFut", f, a, b] => do
+    let fn ← nfnOf f
+    pure (monoidFutureCombine (fun x y => fn .d [x, y]) (← hOf w a) (← hOf w b))
+  | .list [.atom "monoidFutEmpty", v] => do pure (monoidFutureEmpty (.int (← v.asInt?)))
   | .list (.atom "sequenceIt" :: hs) => do
     pure (Fut.map (Fut.sequence (← hs.mapM (hOf w))) (fun l => (l, [])))
   | .list [.atom "flatMapTraverseSeq", h, k] => do
